@@ -120,24 +120,57 @@ Qed.
 Definition takeN (n:N) (l:bytes) : bytes := firstn (N.to_nat n) l.
 Definition dropN (n:N) (l:bytes) : bytes := skipn (N.to_nat n) l.
 
-Definition take (n:nat) (l:bytes) : option (bytes * bytes) :=
-  if Nat.leb n (length l) then Some (firstn n l, skipn n l) else None.
+(* take n l = Some (first n elements, rest), None when l is shorter; cost O(n), never
+   looks at the rest of the list *)
+Fixpoint take (n:nat) (l:bytes) : option (bytes * bytes) :=
+  match n with
+  | O => Some ([], l)
+  | S k => match l with
+           | [] => None
+           | x :: r => match take k r with Some (a, b) => Some (x :: a, b) | None => None end
+           end
+  end.
+
+Lemma take_spec n : forall l,
+  take n l = if Nat.leb n (length l) then Some (firstn n l, skipn n l) else None.
+Proof.
+  induction n as [|k IH]; intros l; cbn [take].
+  - reflexivity.
+  - destruct l as [|x r]; [reflexivity|]. rewrite IH. cbn [length Nat.leb firstn skipn].
+    destruct (Nat.leb k (length r)); reflexivity.
+Qed.
 
 Lemma take_app n l r : length l = n -> take n (l ++ r) = Some (l, r).
 Proof.
-  intros H. unfold take. rewrite app_length.
+  intros H. rewrite take_spec, app_length.
   replace (Nat.leb n (length l + length r)) with true by (symmetry; apply Nat.leb_le; lia).
   subst n. rewrite firstn_app, skipn_app, firstn_all, skipn_all, Nat.sub_diag. simpl.
   rewrite app_nil_r. reflexivity.
 Qed.
 Lemma take_some n l a b : take n l = Some (a, b) -> l = a ++ b /\ length a = n.
 Proof.
-  unfold take. destruct (Nat.leb n (length l)) eqn:E; [|discriminate].
+  rewrite take_spec. destruct (Nat.leb n (length l)) eqn:E; [|discriminate].
   intros H; inversion H; subst. split; [symmetry; apply firstn_skipn|].
   apply firstn_length_le. apply Nat.leb_le. exact E.
 Qed.
 Lemma take_none n l : take n l = None -> (length l < n)%nat.
-Proof. unfold take. destruct (Nat.leb n (length l)) eqn:E; [discriminate|]. intros _. apply Nat.leb_gt. exact E. Qed.
+Proof. rewrite take_spec. destruct (Nat.leb n (length l)) eqn:E; [discriminate|]. intros _. apply Nat.leb_gt. exact E. Qed.
+
+(* is l shorter than n?  cost O(min(n, length l)) *)
+Fixpoint short_of (l:bytes) (n:N) : bool :=
+  match l with
+  | [] => 0 <? n
+  | _ :: r => if n =? 0 then false else short_of r (n - 1)
+  end.
+Lemma short_of_spec l : forall n, short_of l n = (blen l <? n).
+Proof.
+  induction l as [|x r IH]; intros n; cbn [short_of].
+  - reflexivity.
+  - destruct (n =? 0) eqn:E.
+    + apply N.eqb_eq in E. subst. unfold blen. symmetry. apply N.ltb_ge. lia.
+    + rewrite IH. unfold blen. cbn [length]. rewrite Nat2N.inj_succ. apply N.eqb_neq in E.
+      destruct (N.of_nat (length r) <? n - 1) eqn:E1; symmetry; [apply N.ltb_lt; apply N.ltb_lt in E1; lia|apply N.ltb_ge; apply N.ltb_ge in E1; lia].
+Qed.
 
 (* ASCII helpers *)
 Definition ascii_lower (b:N) : N := if (65 <=? b) && (b <=? 90) then b + 32 else b.
